@@ -7,7 +7,7 @@ from .c17 import fmt_dec, cmp_num
 MODS = ['Model.NumLex', 'Model.ExprTypes', 'Model.Expr', 'Spec.ArithSpec']
 SPEC_MODS = ['Model.NumLex', 'Model.ExprTypes']
 RULE = ('cases = random expression trees (depth <= 5 quick, <= 7 thorough) over + - * / and -( ), operands integer/decimal, both signs, '
-        'with/without units, literals or variables; rendered with minimal parentheses plus random redundant ones; excluded as the '
+        'with/without units, literals or variables; 3 in 10 of the expressions with variables evaluated a SECOND time (inside a mixin called before with other numbers / through a variable used before where its operands differ); rendered with minimal parentheses plus random redundant ones; excluded as the '
         'property says: zero-valued sub-expressions, zero divisors, magnitudes outside plain decimal notation; thorough adds ALL '
         'operator sequences of length <= 4 over a fixed operand pool; distinct = distinct text; non-trivial = >= 2 operators')
 ASSUMPTIONS = ['numbers compared as exact rationals to 1e-9 relative (python float vs exact arithmetic)',
@@ -114,6 +114,45 @@ def make_case(rng, t, extra=0.15):
             'cmp': lambda term, a: cmp_int(term, a), 'nontrivial': count_ops(t) >= 2, 'key': text, 'nops': count_ops(t)}
 
 
+def decoy_tree(t, f):
+    if t[0] == 'num':
+        return ('num', f(t[1]), t[2], t[3]) if t[3] else t
+    if t[0] == 'neg':
+        return ('neg', decoy_tree(t[1], f))
+    return ('bin', t[1], decoy_tree(t[2], f), decoy_tree(t[3], f))
+
+
+def var_leaves(t):
+    if t[0] == 'num':
+        return [t] if t[3] else []
+    if t[0] == 'neg':
+        return var_leaves(t[1])
+    return var_leaves(t[2]) + var_leaves(t[3])
+
+
+def add_wrap(rng, c):
+    """3 cases in 10 with variables are evaluated a SECOND time: the expression sits in a mixin called before with other numbers, or in a
+    variable used before in a block where its operands have other values (the other values keep the expression inside the property's
+    exclusions: no zero sub-expression, no zero divisor)"""
+    c['wrap'] = None
+    if not c['vars'] or rng.random() >= 0.3:
+        return
+    for f in (lambda v: v + 1, lambda v: v * 2, lambda v: v + 3, lambda v: v * 3 + 1):
+        dt = decoy_tree(c['tree'], f)
+        if ok_tree(dt):
+            break
+    else:
+        return
+    fmt = c['expr'].replace('{', '{{').replace('}', '}}')
+    for k, (name, _) in sorted(enumerate(c['vars']), key=lambda kv: -len(kv[1][0])):
+        fmt = fmt.replace(name, '{%d}' % k)
+    leaves = var_leaves(dt)
+    if len(leaves) != len(c['vars']):
+        return
+    c['wrap'] = {'kind': rng.choice(['mixin', 'lazy']), 'expr_fmt': fmt, 'real': [v for _, v in c['vars']],
+                 'decoy': [fmt_dec(l[1]) + l[2] for l in leaves]}
+
+
 def cmp_int(model_term, ans):
     if ans.get('r') == 'ok':
         return ('bool', '(num_matches %s %s true)' % (model_term, coqrun.coq_str(ans['css'])), '(show_num %s)' % model_term)
@@ -163,6 +202,8 @@ def run(ctx):
         for name in sorted(ren, key=len, reverse=True):
             c['expr'] = c['expr'].replace(name, ren[name])
         c['vars'] = [(ren[nm], v) for nm, v in c['vars']]
+    for c in cases:
+        add_wrap(rng, c)
     prelude = ''.join('%s: %s;\n' % (nm, v) for c in cases for nm, v in c['vars'])
     # prelude per batch would be cheaper, but variable definitions are cheap: split cases into chunks with own prelude
     out = {'evaluations': 0, 'spec_mismatch': [], 'model_mismatch': [], 'harness_errors': []}
@@ -188,9 +229,9 @@ def run(ctx):
 
 def replay(case):
     inp = case['input']
-    text = inp.get('prelude', '') + '.c0{%s:%s}\n' % (inp.get('prop', 'width'), inp['expr'])
+    text = inp.get('prelude', '') + (inp['sheet'] + '\n' if inp.get('sheet') else '.c0{%s:%s}\n' % (inp.get('prop', 'width'), inp['expr']))
     with impl.Pool(1) as pool:
         a = pool.run([{'kind': 'compile', 'text': text, 'opts': {}}])[0]
-    got = valuecases.split_sheet(a['css']).get(0) if a.get('r') == 'ok' else None
+    got = valuecases.split_sheet(a['css']).get(inp.get('index', 0) if inp.get('sheet') else 0) if a.get('r') == 'ok' else None
     return {'input': text, 'impl_now': a, 'value_now': got, 'spec_expected': case.get('spec'),
             'still_fails': True if got is None else None}
